@@ -383,6 +383,8 @@ class Maker:
     {"list": [...]}, {"tuple": [...]}, {"dict": [[key, desc], ...]},
     {"node": {"btype", "fn", "args": [...], "kwargs": {...}}, "id": n},
     {"share": n}   (a reference to an earlier {"id": n} on the same Maker)
+    {"twin": n}    (a FRESH value made again from the descriptor of {"id": n}:
+                    equal to it, but another object)
   Containers may carry "id" too.
   """
 
@@ -391,6 +393,7 @@ class Maker:
     self.stubs = stubs          # name -> callable
     self.svs = svs if svs is not None else {}
     self.memo = {}
+    self.descs = {}             # id -> descriptor (for twins)
     self.nodes = []             # nodes in creation order
 
   def sv(self, name):
@@ -407,9 +410,12 @@ class Maker:
     out = self._make(d)
     if 'id' in d:
       self.memo[d['id']] = out
+      self.descs[d['id']] = d
     return out
 
   def _make(self, d):
+    if 'twin' in d:
+      return self(_without_ids(self.descs[d['twin']]))
     if 'list' in d:
       return [self(e) for e in d['list']]
     if 'tuple' in d:
@@ -472,6 +478,15 @@ class Maker:
       self.nodes.append(node)
       return node
     raise ValueError(f'bad descriptor {d!r}')
+
+
+def _without_ids(d):
+  """The descriptor again, creating nothing that can be referred to."""
+  if isinstance(d, list):
+    return [_without_ids(e) for e in d]
+  if isinstance(d, dict):
+    return {k: _without_ids(v) for k, v in d.items() if k != 'id'}
+  return d
 
 
 class Unformable(Exception):
